@@ -20,11 +20,17 @@ def run(tier, seed, work, st):
         rows_all += rows
         for r in rows:
             ratio = max(r["alloc_ratio"], r["mallocs_ratio"])
+            # the work done: wall time between 16n and 64n (minimum of three runs each); judged only when the larger run took
+            # long enough (50 ms) for the ratio to be more than timer noise — a linear family at these sizes takes a few ms
+            if r.get("time_ratio", 0) > LIMIT and r.get("time_ns_64n", 0) > 50_000_000:
+                fails.append({"property": "C20", "class": "superlinear-time:" + r["family"],
+                              "what": "%s (%s): time grows by a factor %.1f from 16n to 64n (n=%d): %.1f ms -> %.1f ms" % (r["family"], r["op"], r["time_ratio"], r["n"], r["time_ns_16n"] / 1e6, r["time_ns_64n"] / 1e6),
+                              "case": json.dumps(r), "tokens": "vharness cost %d  # family %s" % (n, r["family"])})
             if ratio > LIMIT:
                 fails.append({"property": "C20", "class": "superlinear:" + r["family"],
                               "what": "%s (%s): allocation grows by a factor %.1f (bytes) / %.1f (mallocs) from n=%d to 4n" % (r["family"], r["op"], r["alloc_ratio"], r["mallocs_ratio"], r["n"]),
                               "case": json.dumps(r), "tokens": "vharness cost %d  # family %s" % (n, r["family"])})
     cov.update({"evaluations": len(rows_all), "distinct_nontrivial": len(set(r["family"] for r in rows_all if r["alloc_n"] > 0)),
-                "rule": "one measurement per repetition family and size: runtime.MemStats TotalAlloc/Mallocs deltas around the operation for n and 4n (GC forced before); a family is linear when both ratios are <= %.0f; distinct_nontrivial = families with a non-zero allocation" % LIMIT,
-                "samples": rows_all[:3], "growth_table": [{k: r[k] for k in ("family", "op", "n", "alloc_ratio", "mallocs_ratio")} for r in rows_all]})
+                "rule": "one measurement per repetition family and size: runtime.MemStats TotalAlloc/Mallocs deltas around the operation for n and 4n (GC forced before); a family is linear when both ratios are <= %.0f and its wall time (minimum of three runs) between 16n and 64n grows by at most the same factor (judged only when the larger run takes more than 50 ms); distinct_nontrivial = families with a non-zero allocation" % LIMIT,
+                "samples": rows_all[:3], "growth_table": [{k: r.get(k) for k in ("family", "op", "n", "alloc_ratio", "mallocs_ratio", "time_ratio", "time_ns_64n")} for r in rows_all]})
     return fails, [], cov
